@@ -669,8 +669,16 @@ def run_history(ctx, Data, ClimateData, GeoGrid, cid, r, climate):
                 w = wdict
                 ctx.count("window_dict_reused")
             w_before = dict(w)
+            okh, held_obs = ctx.call(d.observable)
+            held_snap = np.array(held_obs, copy=True) if okh else None
             ok, e = ctx.call(d.set_window, w)
             ctx.evals()
+            if okh and isinstance(held_obs, np.ndarray):
+                ctx.count("observable_held_across_set_window")
+                if held_obs.shape != held_snap.shape or not np.array_equal(
+                        held_obs, held_snap, equal_nan=True):
+                    ctx.violation(f"{cls}.set_window:edits-the-observable-"
+                                  f"handed-out-before:{kind}", case, cid)
             if {k: (type(v), v) for k, v in w.items()} != \
                     {k: (type(v), v) for k, v in w_before.items()}:
                 ctx.violation(f"{cls}.set_window:edits-the-caller's-window-"
